@@ -233,6 +233,94 @@ def check(run: Run) -> None:
                     if any(isinstance(c, ast.Compare) and len(c.ops) == 1 and isinstance(c.ops[0], ast.Eq) and ast.unparse(c.left) == f"{g.target.id}.key" and names_in(c.comparators[0]) & key_derived for c in facts):
                         if sum(1 for m in walk_no_nested(fi.node) if isinstance(m, ast.Assign) and any(is_name(t, n.targets[0].id) for t in m.targets)) == 1:
                             found_by_key.add(n.targets[0].id)
+        # key -> index tables: `P = {}; for i, n in enumerate(<doc>.sections): if isinstance(n, Assignment): P.setdefault(n.key, i)`.
+        # `pos = P.get(<request key>)` then selects BY KEY as long as the table is fresh: a must-analysis over the CFG in which
+        # the end of such a build loop makes P fresh and every rebinding / reordering of <doc>.sections makes it stale (an
+        # append leaves the positions of the existing nodes alone)
+        index_tables: dict[str, list[ast.For]] = {}
+        for n in walk_no_nested(fi.node):
+            if isinstance(n, ast.For) and isinstance(n.iter, ast.Call) and is_name(n.iter.func, "enumerate") and len(n.iter.args) == 1 and ast.unparse(n.iter.args[0]).endswith(".sections") and isinstance(n.target, ast.Tuple) and len(n.target.elts) == 2 and all(isinstance(e, ast.Name) for e in n.target.elts) and len(n.body) == 1 and isinstance(n.body[0], ast.If) and not n.body[0].orelse and not n.orelse:
+                iv, nv = n.target.elts[0].id, n.target.elts[1].id  # type: ignore[attr-defined]
+                t0 = n.body[0].test
+                if ast.unparse(t0) == f"isinstance({nv}, Assignment)" and len(n.body[0].body) == 1 and isinstance(n.body[0].body[0], ast.Expr):
+                    c0 = n.body[0].body[0].value
+                    if isinstance(c0, ast.Call) and isinstance(c0.func, ast.Attribute) and c0.func.attr == "setdefault" and isinstance(c0.func.value, ast.Name) and len(c0.args) == 2 and ast.unparse(c0.args[0]) == f"{nv}.key" and is_name(c0.args[1], iv):
+                        index_tables.setdefault(c0.func.value.id, []).append(n)
+        fresh_at: dict[str, set[int]] = {}
+        for P, loops in index_tables.items():
+            # every build loop is directly preceded by `P = {}`
+            okb = True
+            for lp in loops:
+                blk = None
+                par = getattr(lp, "_parent", None)
+                for f_ in ("body", "orelse", "finalbody"):
+                    v_ = getattr(par, f_, None)
+                    if isinstance(v_, list) and lp in v_:
+                        blk = v_
+                i_ = blk.index(lp) if blk else 0
+                prev_ = blk[i_ - 1] if blk and i_ > 0 else None
+                if not (isinstance(prev_, (ast.Assign, ast.AnnAssign)) and isinstance(prev_.value, ast.Dict) and not prev_.value.keys and is_name(prev_.targets[0] if isinstance(prev_, ast.Assign) else prev_.target, P)):
+                    okb = False
+            if not okb:
+                continue
+            # other writes of P: only P[<key>] = len(<doc>.sections) (registering a node that is appended next) and P.pop(..)
+            state: dict[int, str] = {cfg.entry: "S"}
+            work = [cfg.entry]
+            loop_iters = {n_.id for n_ in cfg.nodes if n_.kind == "iter" and n_.owner in loops}
+
+            def stale_effect(node_) -> bool:
+                a_ = node_.ast
+                if a_ is None or node_.kind not in ("stmt", "with"):
+                    return False
+                for x in walk_no_nested(a_):
+                    if isinstance(x, (ast.Assign, ast.AugAssign, ast.AnnAssign)):
+                        for t_ in (x.targets if isinstance(x, ast.Assign) else [x.target]):
+                            if isinstance(t_, ast.Attribute) and t_.attr == "sections":
+                                return True
+                            if isinstance(t_, ast.Subscript) and isinstance(t_.value, ast.Attribute) and t_.value.attr == "sections" and isinstance(t_.slice, ast.Slice):
+                                return True
+                            if is_name(t_, P) and not (isinstance(x, (ast.Assign, ast.AnnAssign)) and isinstance(x.value, ast.Dict) and not x.value.keys):
+                                return True
+                    if isinstance(x, ast.Delete) and any(isinstance(t_, ast.Subscript) and isinstance(t_.value, ast.Attribute) and t_.value.attr == "sections" for t_ in x.targets):
+                        return True
+                    if isinstance(x, ast.Call) and isinstance(x.func, ast.Attribute) and x.func.attr in ("insert", "pop", "remove", "sort", "reverse", "clear", "extend") and isinstance(x.func.value, ast.Attribute) and x.func.value.attr == "sections":
+                        return True
+                    if isinstance(x, ast.Call) and isinstance(x.func, ast.Attribute) and x.func.attr in ("update", "clear") and is_name(x.func.value, P):
+                        return True
+                return False
+
+            while work:
+                n_ = work.pop()
+                st_in = state[n_]
+                node_ = cfg.nodes[n_]
+                for s_, lab_ in cfg.succ[n_]:
+                    st_out = st_in
+                    if stale_effect(node_):
+                        st_out = "S"
+                    if n_ in loop_iters and lab_ == "done":
+                        st_out = "F"  # the build loop ran to its end
+                    if n_ in loop_iters and lab_ != "done" and lab_ != "x":
+                        st_out = "S"  # (inside the build loop the table is incomplete)
+                    old_ = state.get(s_)
+                    new_ = st_out if old_ is None else ("F" if (old_ == "F" and st_out == "F") else "S")
+                    if new_ != old_:
+                        state[s_] = new_
+                        work.append(s_)
+            fresh_at[P] = {k_ for k_, v_ in state.items() if v_ == "F"}
+        # locals bound to `P.get(<request key>)` / `P[<request key>]` where P is fresh: found by key (an index)
+        index_of_key: set[str] = set()
+        for n in walk_no_nested(fi.node):
+            if isinstance(n, ast.Assign) and len(n.targets) == 1 and isinstance(n.targets[0], ast.Name):
+                v = n.value
+                P = None
+                if isinstance(v, ast.Call) and isinstance(v.func, ast.Attribute) and v.func.attr == "get" and isinstance(v.func.value, ast.Name) and v.func.value.id in fresh_at and len(v.args) == 1 and isinstance(v.args[0], ast.Name) and v.args[0].id in key_derived:
+                    P = v.func.value.id
+                if P is not None and sum(1 for m in walk_no_nested(fi.node) if isinstance(m, ast.Assign) and any(is_name(t, n.targets[0].id) for t in m.targets)) == 1:
+                    nid = [x.id for x in cfg.nodes if x.ast is n]
+                    if nid and nid[0] in fresh_at[P]:
+                        index_of_key.add(n.targets[0].id)
+        found_by_key |= index_of_key
+
         def key_expr_ok(k: ast.AST) -> bool:
             # the request key itself, a local derived from it, or a pure slice / subscript of it (`key[5:]`, `key[len("META."):]`)
             if isinstance(k, ast.Name):
@@ -308,6 +396,10 @@ def check(run: Run) -> None:
                     base = getattr(node, "value", None)
                     if not keyeq and isinstance(base, ast.Name) and base.id in found_by_key:
                         keyeq = True  # the object was selected by its key
+                    if not keyeq and isinstance(base, ast.Subscript) and isinstance(base.value, ast.Attribute) and base.value.attr == "sections" and isinstance(base.slice, ast.Name) and base.slice.id in index_of_key:
+                        # <doc>.sections[pos] with pos looked up by key in a fresh index table - and still fresh at the store
+                        P_ = next((a_.value.func.value.id for a_ in walk_no_nested(fi.node) if isinstance(a_, ast.Assign) and any(is_name(t_, base.slice.id) for t_ in a_.targets) and isinstance(a_.value, ast.Call)), None)  # type: ignore[union-attr]
+                        keyeq = P_ in fresh_at and all(x in fresh_at[P_] for x in nodes) and any(isinstance(t, ast.Compare) and is_name(t.left, base.slice.id) and isinstance(t.ops[0], ast.IsNot) and val is True for t, val in conds)
                     run.instance("R18.5", wm.loc(node), f"{qual}: `{norm(st)}` only where <node>.key == request key", ok=keyeq)
                     if not keyeq:
                         run.violation("R18.5", wm, qual, st, "an assignment's value is overwritten without its key having been compared with the request key: unmentioned fields can change")
